@@ -52,8 +52,15 @@ def make_aggregate(c, order=None):
             m = qr.Molecule([float(x) for x in c["energies"][i]])
             m.set_dipole((0, 1), [float(x) for x in c["dip"][i]])
             mols.append(m)
-        agg = qr.Aggregate(mols)
         J = [[c["J"][order[a]][order[b]] for b in range(N)] for a in range(N)]
+        if c.get("jmode", "pairs") == "matrix_first":
+            # the other legitimate order of the public calls: the coupling matrix first, the molecules added afterwards
+            agg = qr.Aggregate(name="couplings first")
+            agg.set_resonance_coupling_matrix([[float(x) for x in row] for row in J])
+            for m in mols:
+                agg.add_Molecule(m)
+            return agg
+        agg = qr.Aggregate(mols)
         if c.get("jmode", "pairs") == "matrix":
             agg.set_resonance_coupling_matrix([[float(x) for x in row] for row in J])
         elif c.get("jmode") != "none":
@@ -281,7 +288,7 @@ def gen_build(r, k, tier):
     g0 = r.random() < 0.25
     energies = [[(r.randint(-2, 2) if g0 else 0), r.randint(5, 40)] for _ in range(N)]
     J = [[0] * N for _ in range(N)]
-    jmode = r.choice(["pairs", "pairs", "pairs", "matrix", "matrix", "none"]) if N > 1 else r.choice(["pairs", "none"])
+    jmode = r.choice(["pairs", "pairs", "pairs", "matrix", "matrix", "none", "matrix_first"]) if N > 1 else r.choice(["pairs", "none"])
     for a in range(N):
         for b in range(a + 1, N):
             v = r.randint(-9, 9) if r.random() < 0.8 else 0
